@@ -12,7 +12,12 @@ import (
 // the candidate a third party may replace the record (symbolic priority). Every replacement of a live foreign
 // record by the candidate must be revision-checked, takeover-enabled and of strictly higher priority than
 // the record actually replaced.
-func vpH_C10_T_safety() {
+func vpH_C10_T_safety() { vpC10Safety(1) }
+
+// thorough: the third party writes twice (two symbolic priorities), each write at any store-operation leg
+func vpH_C10_T_safety2() { vpC10Safety(2) }
+
+func vpC10Safety(thirdWrites int) {
 	prio := vpInt("prio")
 	takeover := vpBool("takeover")
 	vpAssume(vpAnd(prio >= 0, prio <= 1<<62))
@@ -34,11 +39,13 @@ func vpH_C10_T_safety() {
 	e := vpMustNew(&vpProvider{kv}, cfg)
 	if vpChoose("interference", 2) == 1 {
 		go func() {
-			vpYield("env.third") // schedulable at every store-operation leg of the candidate
-			p3 := vpInt("prio3")
-			vpAssume(vpAnd(p3 >= 0, p3 <= 1<<62))
-			st.write("env:third", "update", vpRecMk("third", "tok-third", p3), false, st.lastSeq)
-			vpEvent("third-wrote")
+			for k := 0; k < thirdWrites; k++ {
+				vpYield("env.third") // schedulable at every store-operation leg of the candidate
+				p3 := vpInt("prio3")
+				vpAssume(vpAnd(p3 >= 0, p3 <= 1<<62))
+				st.write("env:third", "update", vpRecMk("third", "tok-third", p3), false, st.lastSeq)
+				vpEvent("third-wrote")
+			}
 		}()
 	}
 	_ = e.Start(vpRootCtx())
